@@ -385,9 +385,9 @@ class AbstractActorCriticOnPolicyAlgorithm[PolicyType: AbstractActorCriticPolicy
         truncation = env.truncate(next_env_state)
         done = termination | truncation
 
-        # Bootstrap reward if truncated
+        # Bootstrap reward if truncated (a true termination never bootstraps)
         bootstrapped_reward = lax.cond(
-            truncation,
+            truncation & ~termination,
             lambda: (
                 reward
                 + self.gamma
